@@ -8,6 +8,7 @@ import (
 	"os"
 	"os/exec"
 	"path/filepath"
+	"regexp"
 	"runtime"
 	"sort"
 	"strconv"
@@ -304,7 +305,15 @@ func RunnerMain() int {
 			if h4, ok := d4.agg.TraceHashes[seed]; ok && h4 != h && w.TimerRaces != "" {
 				fmt.Printf("note: world=%s seed=%d: trace hashes differ between processes (%s)\n", w.Name, seed, w.TimerRaces)
 			} else if ok && h4 != h {
-				trouble = append(trouble, fmt.Sprintf("NONDETERMINISM world=%s seed=%d hash %s vs %s in two separate processes (both GOMAXPROCS=1)", w.Name, seed, h, h4))
+				// Two worker processes that ran the same seeds in the same order disagree on this one. What a replay file
+				// relies on is that the seed replays exactly in a fresh process of its own: check that three times. If it
+				// does, the divergence comes from runtime state carried from earlier runs of a worker process (DESIGN 9);
+				// every violation is re-confirmed in a fresh process anyway, so this is noted, not treated as trouble.
+				if fh, exact := c.freshReplayHash(w.Name, seed, 3); exact {
+					fmt.Printf("note: world=%s seed=%d: two worker processes with the same history disagree (%s vs %s); three fresh single-seed processes agree (%s): replay is exact\n", w.Name, seed, h, h4, fh)
+				} else {
+					trouble = append(trouble, fmt.Sprintf("NONDETERMINISM world=%s seed=%d hash %s vs %s in two separate processes (both GOMAXPROCS=1), and fresh single-seed processes disagree too", w.Name, seed, h, h4))
+				}
 			}
 		}
 		b := c.budget * time.Duration(w.Weight) / time.Duration(totalW)
@@ -499,6 +508,24 @@ func (c *runnerCfg) replayDir() string {
 	d := filepath.Join(c.root, "replays")
 	os.MkdirAll(d, 0o755)
 	return d
+}
+
+// freshReplayHash runs one seed n times, each in a process of its own, and reports whether the trace hashes agree.
+func (c *runnerCfg) freshReplayHash(world string, seed uint64, n int) (string, bool) {
+	first := ""
+	for i := 0; i < n; i++ {
+		outb, _, _ := c.spawn("TestSeedRun", 120*time.Second, childEnv("GOMAXPROCS=1", "VERIF_WORLD="+world, "VERIF_FROM="+strconv.FormatUint(seed, 10), "VERIF_TIER="+c.tier))
+		m := regexp.MustCompile(`(?m)^tracehash=([0-9a-f]+)$`).FindSubmatch(outb)
+		if m == nil {
+			return "", false
+		}
+		if i == 0 {
+			first = string(m[1])
+		} else if string(m[1]) != first {
+			return first, false
+		}
+	}
+	return first, true
 }
 
 func (c *runnerCfg) confirmCrash(world string, seed uint64, output string, tmp string) (string, bool) {
